@@ -296,6 +296,22 @@ def _level_scan(ctx, c, f, cname, var="lvl"):
     return res
 
 
+def _level_reset_before(lp, var="lvl"):
+    """is `var = 0` a statement of the block that contains the loop, before the loop, with nothing in between that changes it?"""
+    blk = getattr(lp, "_parent", None)
+    for fld in ("body", "orelse", "finalbody"):
+        lst = getattr(blk, fld, None)
+        if isinstance(lst, list) and lp in lst:
+            before = lst[:lst.index(lp)]
+            last = None
+            for st in before:
+                for n in ast.walk(st):
+                    if isinstance(n, ast.Name) and n.id == var and isinstance(n.ctx, ast.Store):
+                        last = st
+            return isinstance(last, ast.Assign) and len(last.targets) == 1 and norm(last.targets[0]) == var and isinstance(last.value, ast.Constant) and last.value.value == 0
+    return False
+
+
 @rule("C02.R4", "nested groups are delimited by counting opening (+1) and closing (-1) tags; imbalance is refused", floor=4, engines="E1 paths + E5")
 def r4(ctx):
     prog = ctx.prog
@@ -308,6 +324,8 @@ def r4(ctx):
         raise ShapeError("TagList.get_context: level counting loop not found")
     for lp, ok, detail in res:
         ctx.check("TagList.get_context:level-counting", ok, where(tl.module, lp), detail)
+        ctx.check("TagList.get_context:level-starts-at-zero", _level_reset_before(lp), where(tl.module, lp),
+                  "the nesting level must be set to 0 right before each group is scanned (same block as the scan loop): a value left over from the previous group mis-delimits the next one")
         brk = [b for b in ast.walk(lp) if isinstance(b, ast.Break)]
         ev = Evaluator(prog, tl.module, tl)
         okb = len(brk) == 1
@@ -331,6 +349,7 @@ def r4(ctx):
         raise ShapeError("Any.decode: level counting loop not found")
     for lp, ok, detail in res:
         ctx.check("Any.decode:level-counting", ok, where(a.module, lp), detail)
+        ctx.check("Any.decode:level-starts-at-zero", _level_reset_before(lp), where(a.module, lp), "the nesting level must be set to 0 right before the scan")
         ap = [x for x in calls_in(lp) if norm(x.func) == "self.tagList.append"]
         ok2 = len(ap) == 1 and norm(ap[0].args[0]) == "taglist.Pop()"
         ctx.check("Any.decode:keeps-what-it-pops", ok2, where(a.module, lp), "Any must keep exactly the tags it removes from the list")
